@@ -52,8 +52,18 @@ type worker struct {
 func newWorker(ld *Loaded, spec HarnessSpec, cfg *RunCfg) *worker {
 	st := NewStore()
 	w := &worker{ld: ld, spec: spec, cfg: cfg}
-	w.ctx = &Ctx{st: st, sol: NewSolver("z3"), cfg: cfg, stats: &Stats{Funcs: map[string]int64{}, AssertsByMsg: map[string]int{}}, harness: spec.Name()}
+	w.ctx = &Ctx{st: st, sol: NewSolver(solverKind()), cfg: cfg, stats: &Stats{Funcs: map[string]int64{}, AssertsByMsg: map[string]int{}}, harness: spec.Name()}
 	w.fn = ld.fn(repoMod+"/"+spec.Pkg, spec.Func)
+	for _, cs := range cfg.Cross {
+		every := 1
+		name := cs
+		if i := strings.IndexByte(cs, ':'); i >= 0 {
+			name = cs[:i]
+			fmt.Sscanf(cs[i+1:], "%d", &every)
+		}
+		w.ctx.cross = append(w.ctx.cross, NewSolver(name))
+		w.ctx.crossEvery = append(w.ctx.crossEvery, every)
+	}
 	return w
 }
 
@@ -112,6 +122,13 @@ func (w *worker) runPath(maxDepth int) (outcome string) {
 	x.callFunction(w.fn.Pkg.Func("init"), nil, nil)
 	x.callFunction(w.fn, nil, nil)
 	return "ok"
+}
+
+func solverKind() string {
+	if k := os.Getenv("GOITSYM_SOLVER"); k != "" {
+		return k
+	}
+	return "z3"
 }
 
 type depthLimit struct{}
@@ -345,6 +362,13 @@ func mergeStats(res *HarnessResult, w *worker) {
 	s.Panics += t.Panics
 	s.ReachedEnd += t.ReachedEnd
 	s.BranchQueries += t.BranchQueries
+	s.CrossChecked += t.CrossChecked
+	s.CrossDisagree += t.CrossDisagree
+	s.CrossUnknown += t.CrossUnknown
+	for _, cs := range w.ctx.cross {
+		cs.Close()
+	}
+	w.ctx.cross = nil
 	for _, e := range t.ErrSamples {
 		if len(s.ErrSamples) < 5 {
 			s.ErrSamples = append(s.ErrSamples, e)
